@@ -176,19 +176,23 @@ func structHarnesses(prog *MProgram, prefix string, quick, thorough [][]int64) [
 			// a struct with many container members: every container of length 2 with symbolic elements
 			// does not finish within the thorough budget (measured: > 30 min for one harness), so
 			// its thorough bound is the quick one
-			nc := 0
-			for _, fl := range s.Fields {
-				if fl.Type.Kind == "list" || fl.Type.Kind == "set" || fl.Type.Kind == "map" {
-					nc++
-				}
-			}
-			if nc >= 8 {
+			if containerHeavy(&s) {
 				th = quick
 			}
 			hs = append(hs, Harness{Func: prefix + s.Name, Quick: quick, Thorough: th, Covers: []string{"end"}})
 		}
 	}
 	return hs
+}
+
+func containerHeavy(s *MStruct) bool {
+	nc := 0
+	for _, fl := range s.Fields {
+		if fl.Type.Kind == "list" || fl.Type.Kind == "set" || fl.Type.Kind == "map" {
+			nc++
+		}
+	}
+	return nc >= 8
 }
 
 func genVariant(label, options string, opts genOpts, pkg string, entry func(g *harnessGen, pkg string) string, hs func(prog *MProgram) []Harness) *Prop {
@@ -503,9 +507,13 @@ func c10Harnesses(prog *MProgram) []Harness {
 	for _, f := range prog.Files {
 		for _, s := range f.Structs {
 			nf := int64(len(s.Fields)) - 1
+			th := rng(0, 2)
+			if containerHeavy(&s) {
+				th = rng(0, 1) // measured: length 2 in every container of such a struct does not finish in 80 min
+			}
 			hs = append(hs,
-				Harness{Func: "H_C10_append_" + s.Name, Quick: rng(0, 1), Thorough: rng(0, 2), Covers: []string{"end"}},
-				Harness{Func: "H_C10_fastread_" + s.Name, Quick: rng(0, 1), Thorough: rng(0, 2), Covers: []string{"end"}},
+				Harness{Func: "H_C10_append_" + s.Name, Quick: rng(0, 1), Thorough: th, Covers: []string{"end"}},
+				Harness{Func: "H_C10_fastread_" + s.Name, Quick: rng(0, 1), Thorough: th, Covers: []string{"end"}},
 				Harness{Func: "H_C10_agree_" + s.Name, Quick: tuples(seq(0, 2), seq(0, nf)), Covers: []string{"end"}},
 				Harness{Func: "H_C10_subset_" + s.Name, Covers: []string{"end"}},
 				Harness{Func: "H_C10_trunc_" + s.Name, Quick: tuples(seq(1, 3), seq(1, 1)), Thorough: tuples(seq(1, 8), seq(0, 2)), Covers: []string{"end"}},
